@@ -251,7 +251,8 @@ fn family_with(nat: Vec<u8>, code: u16, extra: usize, lead_only: bool) -> Vec<(V
                         1 => [0, 1, 0, nsent as u16],
                         _ => [0, 0, 0, 1 + nsent as u16],
                     };
-                    let mut variants: Vec<([u16; 4], bool)> = vec![(base_counts, r == nat.len())];
+                    // an OPT record outside the additional section is a format error a parser may refuse
+                    let mut variants: Vec<([u16; 4], bool)> = vec![(base_counts, r == nat.len() && (code != 41 || placement == 2) && (schema::schema(code).is_some() || code == 41 || code == 10 || library_has_no_variant_for(code)))];
                     if r == nat.len() || r == nat.len() + 1 || r == 0 {
                         for idx in [1usize, 3] {
                             for delta in [-1i32, 1, 0xffff] {
